@@ -130,8 +130,9 @@ def gen_file(rng, big=70000, marker=True, debug=False, defect=False):
         if typ in (0, 2) and fwver is not None:
             desc[0xC8] = fwver
         if rng.random() < 0.5:
-            crc = rng.randrange(2 ** 32)
-            w.text(f"##CRC: 0x{crc:08X}")
+            crc = rng.choice([rng.randrange(2 ** 32), rng.randrange(2 ** 32), rng.randrange(2 ** 24), rng.randrange(4096), 0, 1, 2 ** 32 - 1])
+            # `int(text[2:], 16)`: any number of hex digits, either case, always four bytes in the tag
+            w.text("##CRC: 0x" + rng.choice([f"{crc:08X}", f"{crc:X}", f"{crc:x}", f"{crc:010X}"]))
             desc[0xC7] = crc.to_bytes(4, "big")
         if rng.random() < 0.5 or si == len(kinds) - 1:
             w.text("#>REBOOT")
